@@ -122,6 +122,7 @@ public:
 
     void setNillable(bool isNil);
     void resetNillable();
+    void resetXsiType();
     void setErrorReporter(XMLErrorReporter* const errorReporter);
     void setExitOnFirstFatal(const bool newValue);
     void setDatatypeBuffer(const XMLCh* const value);
@@ -335,6 +336,11 @@ inline void SchemaValidator::setXsiType(const XMLCh* const        prefix
 inline void SchemaValidator::setNillable(bool isNil) {
     fNil = isNil;
     fNilFound = true;
+}
+
+inline void SchemaValidator::resetXsiType() {
+    delete fXsiType;
+    fXsiType = 0;
 }
 
 inline void SchemaValidator::resetNillable() {
